@@ -691,3 +691,59 @@ func rulePairedFields(c *Ctx) {
 		c.census("I-PAIR", "functions extending "+shortQual(pr.typ), len(fs), 1)
 	}
 }
+
+// ruleBump (C13-BUMP): a new version of a document is announced by bumping its per-document counter; when the
+// bump's result is used (it is the version handed to the analysis of the new text), every path from the bump to
+// the exit of the function starts that analysis - a `go` statement or a call that receives the new version.  A
+// bump whose result is discarded (didClose: supersede what is in flight) carries no obligation.
+func ruleBump(c *Ctx) {
+	ci := buildConc(c)
+	// the bump functions: they increment a per-document counter and return the new value
+	bump := map[*ssa.Function]bool{}
+	for _, f := range ci.funcs {
+		for _, b := range f.Blocks {
+			for _, ins := range b.Instrs {
+				if mu, ok := ins.(*ssa.MapUpdate); ok {
+					mt, _ := mu.Map.Type().Underlying().(*types.Map)
+					if _, isBin := mu.Value.(*ssa.BinOp); isBin && mt != nil && perDocumentCounter(mt) && f.Signature.Results().Len() == 1 {
+						bump[f] = true
+					}
+				}
+			}
+		}
+	}
+	c.census("C13-BUMP", "functions that bump a per-document version", len(bump), 1)
+	n := 0
+	for _, f := range ci.funcs {
+		for _, b := range f.Blocks {
+			for i, ins := range b.Instrs {
+				call, ok := ins.(*ssa.Call)
+				if !ok || !bump[call.Call.StaticCallee()] {
+					continue
+				}
+				if refs := call.Referrers(); refs == nil || len(*refs) == 0 {
+					continue // result discarded: superseding only
+				}
+				n++
+				receives := func(x ssa.Instruction) bool {
+					ci2, ok := x.(ssa.CallInstruction)
+					if !ok || x == ssa.Instruction(call) {
+						return false
+					}
+					for _, a := range ci2.Common().Args {
+						if a == ssa.Value(call) || backSlice(a)[call] {
+							return true
+						}
+					}
+					return false
+				}
+				// the version may be passed in the same instruction (argument of the analysis call itself)
+				bad := escapesFlags(b, i+1, receives)
+				c.check(!bad, "C13-BUMP", funcName(f), "a bumped version is handed to an analysis on every path", call.Pos(),
+					"every path from the version bump to the exit starts the analysis of that version",
+					"the per-document version is bumped - which supersedes the analysis in flight - on a path that returns without starting an analysis of the new version: the diagnostics of the latest text are never published")
+			}
+		}
+	}
+	c.census("C13-BUMP", "version bumps whose result is used", n, 2)
+}
